@@ -161,12 +161,16 @@ def run(ctx: Ctx) -> None:
         rb = {(r.origin, r.alias) for r in G.rules if any(n == b for n, _, _ in r.expansion)}
         single = all(len(r.expansion) == 1 for r in G.rules if any(n in (a, b) for n, _, _ in r.expansion))
         ctx.check(ra == rb and single and bool(ra), "Q1", f"{a} / {b} siblings", "mappyfile/mapfile.lark", f"both only in {sorted(ra)}", f"{a} is used in {sorted(ra)} but {b} in {sorted(rb)}: the quote style changes the parse")
-    I = e.interp(allow_fork=False)
+    I = e.interp(allow_fork=True, max_paths=32)
     body = lambda: Atom("s", nonempty=False, excludes=frozenset("\"'"))
     for q in ('"', "'"):
         outs = I.explore("quoter.Quoter.remove_quotes", lambda q=q: (I.instantiate("quoter.Quoter", [], {}), [SStr([q, body(), q])], {}))
-        good = len(outs) == 1 and outs[0].kind == "return" and (outs[0].value == SStr([body()]))
+        good = bool(outs) and all(o.kind == "return" and (o.value == SStr([body()])) for o in outs)
         ctx.check(good, "Q1", f"remove_quotes({q}...{q})", repo.loc("quoter", repo.func("quoter.Quoter.remove_quotes")), "strips exactly the outer pair", f"remove_quotes({q}<s>{q}) = {[(o.kind, o.value) for o in outs]}")
+
+    for q in ('"', "'"):
+        outs = I.explore("quoter.Quoter.remove_quotes", lambda q=q: (I.instantiate("quoter.Quoter", [], {}), [q + q], {}))
+        ctx.check(len(outs) == 1 and outs[0].value == "", "Q1", f"remove_quotes of the empty string {q}{q}", repo.loc("quoter", repo.func("quoter.Quoter.remove_quotes")), "''", f"remove_quotes({q}{q}) = {[o.value for o in outs]}: an empty string loads differently in the two quote styles")
 
     # ---- Q2 --------------------------------------------------------------------------------------
     ctx.rule("Q2", "attr() stores a bare word and the same word in double or single quotes identically", 3)
@@ -179,12 +183,13 @@ def run(ctx: Ctx) -> None:
             val = models.token("UNQUOTED_STRING" if style == "bare" else "DOUBLE_QUOTED_STRING", mk())
             return inst, [[key, val]], {}
         outs = I.explore("transformer.MapfileTransformer.attr", make)
-        if len(outs) != 1 or outs[0].kind != "return":
+        if not outs or any(o.kind != "return" for o in outs):
             ctx.finding("Q2", f"attr with {style} value", repo.loc("transformer", repo.func("transformer.MapfileTransformer.attr")), f"{[(o.kind, o.exc) for o in outs]}")
             continue
-        d = outs[0].value
+        bad_o = [o for o in outs if o.value.get("name") != SStr([wordf()])]
+        d = (bad_o or outs)[0].value
         results[style] = d.get("name")
-        ctx.check(d.get("name") == SStr([wordf()]), "Q2", f"attr with {style} value", repo.loc("transformer", repo.func("transformer.MapfileTransformer.attr")), f"stores {d.get('name')!r}", f"a {style} value is stored as {d.get('name')!r} instead of the word itself")
+        ctx.check(not bad_o, "Q2", f"attr with {style} value", repo.loc("transformer", repo.func("transformer.MapfileTransformer.attr")), f"stores {d.get('name')!r}", f"a {style} value is stored as {d.get('name')!r} instead of the word itself")
 
     # ---- P2 --------------------------------------------------------------------------------------
     ctx.rule("P2", "wherever Python code inspects keyword text the outcome is the same for every letter case (evaluated with case-unknown tokens)", 12)
@@ -200,6 +205,15 @@ def run(ctx: Ctx) -> None:
         outs = models.retag_outcomes(e, prev, ck, cv)
         kinds = sorted({str(o[0]) for o in outs})
         ctx.check(len(kinds) == 1 and not kinds[0].startswith("raise"), "P2", f"token loop: {what}", repo.loc("parser", repo.func("parser.Parser.parse")), f"always {kinds[0]}", f"the retagging decision depends on letter case or raises: outcomes {kinds} under assumptions {[o[2] for o in outs]}")
+    # a bare word used as a *value* (the token below it on the stack is its keyword) must never change
+    # how the next token is read, whatever it spells: GROUP symbol DATA ..., CLASSITEM name GRID ...
+    ctx.rule("Q3", "a bare-word value spelled like a keyword (symbol, name, ...) does not change how the following token is read", 4)
+    for word in ("symbol", "name", "grid", "style"):
+        for ck, cv, what in (("UNQUOTED_STRING", anycase("data"), "next keyword"), ("GRID", anycase("grid"), "GRID block")):
+            outs = models.retag_outcomes(e, ("UNQUOTED_STRING", anycase(word)), ck, cv, below="token")
+            kinds = sorted({str(o[0]) for o in outs})
+            ctx.check(kinds == [ck], "Q3", f"value '{word}' followed by {what}", repo.loc("parser", repo.func("parser.Parser.parse")), f"{ck} unchanged", f"after a keyword whose bare-word value is spelled '{word}', the following {what} token is read as {kinds}: leaving the value unquoted changes the parse (KEY {word} DATA ... fails, KEY \"{word}\" DATA ... parses)")
+
     # transformer callbacks that look at keyword text
     I2 = e.interp(allow_fork=True, max_paths=32)
     tok = lambda kind, w: models.token(kind, SStr.atom("kw_" + w, lower_is=w))
